@@ -20,7 +20,7 @@ RULE = ('seeded random pva: |lat|<=85, lon incl. the +-180 region, alt 0..20 km,
         'hand-written state of the existing test; distinct = generator parameters')
 ASSUMPTIONS = ['second order is decided by extracting the first-order coefficient of the residual (Richardson on rungs 1/4, 1/8, 1/16) '
                'and requiring it below 1e-5 of the linear term; log-log slopes are recorded as evidence only']
-REQUIRED_OBS = ['left_inverse', 'correct_ladder', 'perturb_correct_ladder', 'twoD_rows_zero', 'twoD_alt_vd_frozen',
+REQUIRED_OBS = ['tiny_corrections', 'left_inverse', 'correct_ladder', 'perturb_correct_ladder', 'twoD_rows_zero', 'twoD_alt_vd_frozen',
                 'ladder_groups_above_floor']
 REQUIRED_CLASSES = {'all': ['generic3d', 'generic2d', 'steep3d', 'steep2d', 'south_west', 'slow']}
 EPS = np.finfo(float).eps
@@ -192,6 +192,22 @@ def run_case(case):
     bump('correct_ladder')
     judge(R, lin, floors, 'correction_first_order',
           '|diff(pva, correct_pva(pva, s x)) - T_oi s x|', f'x0={x0.tolist()}')
+
+    # ---- very small corrections: the linear term itself must still be there (a small-angle shortcut that drops it, a
+    # threshold below which nothing is applied, ...).  Relative comparison, rounding floors per group.
+    for t in (1e-4, 1e-6):
+        x = t * x0
+        corrected = em.correct_pva(pva, x)
+        d = transform.compute_state_difference(pva, corrected)[OUT].values.astype(float)
+        r = d - t * lin
+        r[6:] = wrap180(r[6:])
+        bump('tiny_corrections')
+        for g, sl in GROUPS.items():
+            size = np.abs(t * lin[sl]).max()
+            tol = 1e-3 * size + 5 * floors[g]
+            if np.abs(r[sl]).max() > tol and size > 20 * floors[g]:
+                fail('tiny_correction_lost', f'{g}: a correction of size {size:.3e} changes the state by {d[sl].tolist()} instead of the predicted '
+                     f'{(t * lin[sl]).tolist()} (|phi| = {np.linalg.norm(x[-3:]):.2e} rad); x0={x0.tolist()}')
 
     # ---- perturb with an output-space error, then correct with the internal vector ----------
     e0 = pd.Series(np.hstack([rng.standard_normal(3) * 10, rng.standard_normal(3),
